@@ -76,12 +76,12 @@ CHECKS = {
     "C09": {"drivers": ["size", "hist", "struct"], "models": ["hist_k256"]},
     "C10": {"drivers": ["nid", "valid", "hist", "cross"], "models": ["hist_ed"]},
     "C11": {"drivers": ["cross", "struct", "auth_light", "valid"], "models": ["gen_secp", "gen_ed"]},
-    "C12": {"drivers": ["text", "hist_full", "size_full"], "models": []},
-    "C13": {"drivers": ["prefix", "valid"], "models": []},
-    "C14": {"drivers": ["typed_q", "typed_b", "hist_full"], "models": []},
+    "C12": {"drivers": ["text", "hist_full", "size_full"], "models": ["text"]},
+    "C13": {"drivers": ["prefix", "valid"], "models": ["stream"]},
+    "C14": {"drivers": ["typed_q", "typed_b", "hist_full"], "models": ["typed"]},
     "C15": {"drivers": ["eq", "hist"], "models": ["hist_k256"]},
-    "C16": {"drivers": ["nodeid"], "models": []},
-    "C17": {"drivers": ["keys"], "models": []},
+    "C16": {"drivers": ["nodeid"], "models": ["nodeid"]},
+    "C17": {"drivers": ["keys"], "models": ["key"]},
 }
 
 
